@@ -8,8 +8,11 @@ syntax tree where behaviour cannot show it (the id counter is incremented under 
 import ast
 import inspect
 import json
+import logging
 import sys
 import textwrap
+
+logging.disable(logging.CRITICAL)          # the probes make the code log the exceptions they provoke
 
 import c09_lib
 from sdc11073.consumer import operations as cons_ops
